@@ -1,4 +1,83 @@
-import Model.C03
+import Proofs.C05Wf
+/-!
+# C05 — each token has one owner on every replica (property theorems)
+
+Model: `Model/C03.lean` (`mergeWithTime`, `normalizeIngestersMap`, `conflictingTokensExist`,
+`resolveConflicts`). `WF d` is the invariant: unique ids, token lists strictly sorted (hence
+duplicate-free), tombstones hold no tokens, and no token occurs in two entries.
+-/
 namespace PC05
-theorem placeholder : True := trivial
+open Ring C03 PfC03 PfC05
+
+/-- the pairwise rule used by conflict resolution is `≤` in the order "(leaving?, id)": an instance
+that is leaving loses to one that is not, otherwise the smaller identifier wins … -/
+theorem winner_rule (ing prev : Inst) : newcomerWins ing prev = true ↔ keyLe ing prev :=
+  newcomerWins_iff ing prev
+
+/-- … and that order is total, transitive and antisymmetric on identifiers (a total order on the
+entries of a descriptor, whose ids are unique). -/
+theorem winner_total_order :
+    (∀ a b : Inst, keyLe a b ∨ keyLe b a) ∧
+    (∀ a b c : Inst, keyLe a b → keyLe b c → keyLe a c) ∧
+    (∀ a b : Inst, keyLe a b → keyLe b a → a.id = b.id) :=
+  ⟨keyLe_total, fun _ _ _ => keyLe_trans, fun _ _ => keyLe_antisymm⟩
+
+/-- colliding claims are resolved to the same winner whatever order the entries are scanned in
+(Go map iteration order; replicas holding the same entries). -/
+theorem resolve_perm_invariant (tok : Nat) {d d' : Desc} (hp : d.Perm d') (hn : (ids d).Nodup) :
+    winner tok d none = winner tok d' none :=
+  winner_perm tok hp hn
+
+/-- hence every entry gets the same resolved token list on both replicas -/
+theorem resolve_entry_perm_invariant {d d' : Desc} (hp : d.Perm d') (hn : (ids d).Nodup) (i : Inst) :
+    resolveEntry d i = resolveEntry d' i := by
+  unfold resolveEntry
+  split
+  · rfl
+  · congr 2
+    apply List.filter_congr
+    intro t _
+    rw [winner_perm t hp hn]
+
+/-- after resolution: the descriptor is well-formed (one owner per token, sorted duplicate-free
+lists, tombstones empty) … -/
+theorem resolve_spec_wf (d : Desc) (hn : (ids d).Nodup) : WF (resolve d) := resolve_wf d hn
+
+/-- … and a token is held exactly by the minimal claimant (the loser simply lacks it). -/
+theorem resolve_spec_owner (d : Desc) (hn : (ids d).Nodup) (t : Nat) (i : Inst) (hi : i ∈ d) :
+    t ∈ (resolveEntry d i).tokens ↔ (claims t i ∧ ∀ j ∈ d, claims t j → keyLe i j) :=
+  resolve_owner d hn t i hi
+
+/-- the collision detector is exact -/
+theorem conflictsExist_iff (d : Desc) : conflictsExist d = false ↔ (allTokens d).Nodup :=
+  hasDup_false_iff _
+
+/-- a merge of ANY incoming descriptor (unsorted, duplicated, clashing tokens; gossip or local
+CAS; any clock) into a well-formed state yields a well-formed state — also when resolution is
+skipped because no accepted entry changed its tokens. -/
+theorem merge_preserves_wf (cas : Bool) (now : Int) (this other : Desc) (h : WF this) :
+    WF (merge cas now this other).state :=
+  PfC05.merge_preserves_wf cas now this other h
+
+/-- every state a replica can reach by merging peer updates and local writes is well-formed -/
+theorem reachable_wf {s : Desc} (h : Reachable s) : WF s := PfC05.reachable_wf h
+
+/-- in particular no token is held by two instances that have not left -/
+theorem reachable_one_owner {s : Desc} (h : Reachable s) (t : Nat) (i j : Inst)
+    (hi : i ∈ s) (hj : j ∈ s) (hti : t ∈ i.tokens) (htj : t ∈ j.tokens) : i = j :=
+  wf_one_owner (PfC05.reachable_wf h) t i j hi hj hti htj
+
+/-! ### Non-vacuity -/
+
+-- "b" ACTIVE and "a" LEAVING both claim token 2: "b" wins although "a" < "b"; token 1 stays with "a"
+example : resolve [{ id := "a", state := .LEAVING, tokens := [1, 2] }, { id := "b", tokens := [2, 3] }] =
+    [{ id := "a", state := .LEAVING, tokens := [1] }, { id := "b", tokens := [2, 3] }] := by decide
+
+-- a gossip merge that needs resolution, from a well-formed state
+example : (merge false 0 [{ id := "b", ts := 1, tokens := [2, 3] }] [{ id := "a", ts := 1, tokens := [3, 1, 3] }]).state =
+    [{ id := "b", ts := 1, tokens := [2] }, { id := "a", ts := 1, tokens := [1, 3] }] := by decide
+
+example : Reachable (merge false 0 [] [{ id := "a", ts := 1, tokens := [3, 1, 3] }]).state :=
+  Reachable.step false 0 _ Reachable.empty
+
 end PC05
